@@ -1,5 +1,6 @@
 import CnlDriver.CS
 import CnlModel.Wide
+import CnlModel.WideCmp
 import CnlSpec.Wide
 import CnlDriver.C10F
 /-!
@@ -20,6 +21,11 @@ independent of the limb type.  The model runs on limb lists (`Cnl.Wide`), the or
     lim <max|lowest|min|digits> <ty>     => <ty>:<hex> | <digits>
     dec <ty> <a>                         => decimal text (via operator<<)
     chars <ty> <a>                       => decimal text (via cnl::to_chars_static; values within numeric_limits)
+    tochars <ty> <len> <a>               => decimal text | E   (cnl::to_chars into a buffer of <len> characters)
+    cap <ty>                             => to_chars_capacity (base ten)
+    mix <op> <l|r> <ty> <T> <v> <a>      => <result ty>:<hex>  built-in operand v of type T on the left (l) or right (r)
+                                            of the wide_integer a; op ∈ add sub mul div mod and
+    mixcmp <op> <l|r> <ty> <T> <v> <a>   => 0|1
     w2f <ty> <f32|f64|f80> <a>           => hex float (CnlDriver/C10F.lean)
     f2w <ty> <fmt> <hexfloat>            => <ty>:<hex>
 -/
@@ -159,6 +165,60 @@ def checkC10 (toks : List String) (res : String) : Option Verdict :=
       | none => "TIMEOUT"
     let want := WideSpec.decimal (patToInt f.N f.signed pa)
     some { model := m, spec := some (want == res), branch := "chars" }
+  | ["tochars", tys, len, a] => do
+    let ty ← parseTy tys; let (f, _) ← wdFmt ty
+    let len ← len.toNat?; let pa ← parseHex a
+    let m := match toCharsBuf f len (ofNat f.w f.n pa) with
+      | some (some s) => s
+      | some none => "E"
+      | none => "TIMEOUT"
+    let s := WideSpec.decimal (patToInt f.N f.signed pa)
+    let want := if s.length ≤ len then s else "E"
+    some { model := m, spec := some (want == res), branch := if s.length ≤ len then (if s.length = len then "tochars/exact-fit" else "tochars/fits") else "tochars/too-small" }
+  | ["cap", tys] => do
+    let ty ← parseTy tys; let (f, d) ← wdFmt ty
+    -- the property's demand: the fixed-capacity conversion never fails, i.e. the capacity holds the longest numeral
+    let need := Nat.max (WideSpec.decimal (WideSpec.limMax d)).length (WideSpec.decimal (WideSpec.limLowest d f.signed)).length
+    let ok := match res.toNat? with | some c => decide (need ≤ c) | none => false
+    some { model := toString (toCharsCapacity d f.signed), spec := some ok, branch := "cap" }
+  | ["mix", ops, side, tys, t, v, a] => do
+    let op ← parseBinOp ops; let ty ← parseTy tys; let (f, d) ← wdFmt ty; let t ← parseIntTy t
+    let .wd _ (.int nw) := ty | none
+    let v ← v.toInt?; let pa ← parseHex a
+    if side != "l" && side != "r" then none
+    let left := side == "l"
+    let tyR := Ty.wd d (.int (mixNarrowest nw t))
+    let (g, _) ← wdFmt tyR
+    let m := showRes (showW tyR g) (mixArith f g t op left v (ofNat f.w f.n pa))
+    let x := patToInt f.N f.signed pa
+    let (l, r) := if left then (v, x) else (x, v)
+    -- the property's demand: the operator on the two values, reduced to the result type's range (none: zero divisor)
+    let want := (WideSpec.specBin g.N g.signed op l r).map (showP tyR g.N)
+    -- two open defect classes (findings/C10.json), attributed only where the model of the unchanged code itself
+    -- departs from the demand (any other departure is a correspondence mismatch or an unlisted violation):
+    -- * a signed built-in operand next to an UNSIGNED multi-limb wide_integer is computed in the unsigned format and
+    --   then reinterpreted / zero-extended in the signed result type (no mixed-signedness operators in uintwide_t);
+    -- * `negative wide % unsigned T`, T no wider than a limb: uintwide_t's limb-returning overload yields
+    --   2^w − |rem| (`Cnl.Wide.modSmall`)
+    let signMixed := !f.signed && t.signed
+    let modSmallNeg := takesModSmall f t op left && decide (x < 0)
+    let departs := match want with | some w => m != w | none => false
+    let cls := if !departs then "" else if modSmallNeg then "C10.mod_small_unsigned_builtin_negative_dividend"
+               else if signMixed then "C10.signed_builtin_unsigned_wide" else ""
+    some { model := m, spec := want.map (· == res), nontrivial := want.isSome, cls := cls,
+           branch := "mix/" ++ ops ++ "/" ++ side ++ (if takesModSmall f t op left then "/limb-returning-overload" else "")
+                     ++ (if signMixed then "/sign-mixed" else "") ++ (if cls != "" then "(known-defect)" else "") }
+  | ["mixcmp", ops, side, tys, t, v, a] => do
+    let op ← parseCmpOp ops; let ty ← parseTy tys; let (f, d) ← wdFmt ty; let t ← parseIntTy t
+    let .wd _ (.int nw) := ty | none
+    let v ← v.toInt?; let pa ← parseHex a
+    if side != "l" && side != "r" then none
+    let left := side == "l"
+    let x := patToInt f.N f.signed pa
+    let (l, r) := if left then (v, x) else (x, v)
+    let m := showRes showBool (mixCmp d nw t op left v x)
+    some { model := m, spec := some (showBool (WideSpec.specCmp op l r) == res),
+           branch := "mixcmp/" ++ ops ++ "/" ++ side ++ (if f.signed != t.signed then "/sign-mixed" else "") }
   | "w2f" :: _ => checkC10F toks res
   | "f2w" :: _ => checkC10F toks res
   | _ => none
